@@ -1049,6 +1049,278 @@ Proof.
   rewrite (msg_text_no_nl _ Hm), (ind_text_no_nl ind _ Hm) in E. exists pre, post. split; [exact Hpre|exact E].
 Qed.
 
+(* ------------------------------------------------------------------ 4d. ESC-free inputs give ESC-free lines *)
+(* the decorated case asks for lines without ESC; that holds when the texts that come from outside hold none *)
+Lemma ne_closed t : forallb (fun c => negb (N.eqb c ESC)) t = true -> no_esc t.
+Proof.
+  intros H. rewrite forallb_forall in H. apply Forall_forall. intros c Hc. specialize (H c Hc). intros ->. discriminate.
+Qed.
+Ltac ne_compute := apply ne_closed; vm_compute; reflexivity.
+Lemma ne_app a b : no_esc a -> no_esc b -> no_esc (a ++ b).
+Proof. intros Ha Hb. apply Forall_app. split; assumption. Qed.
+Lemma ne_repeat32 n : no_esc (repeat 32%N n).
+Proof. induction n as [|n IH]; cbn [repeat]; constructor; [discriminate|exact IH]. Qed.
+Lemma ne_chars_of_uint u : no_esc (chars_of_uint u).
+Proof. induction u; cbn [chars_of_uint]; constructor; try assumption; discriminate. Qed.
+Lemma ne_dec_text z : no_esc (dec_text z).
+Proof. unfold dec_text. destruct (Z.to_int z) as [u|u]; [apply ne_chars_of_uint|]. constructor; [discriminate|apply ne_chars_of_uint]. Qed.
+Lemma ne_rjust s w : no_esc s -> no_esc (rjust s w).
+Proof. intros H. unfold rjust. apply ne_app; [apply ne_repeat32|exact H]. Qed.
+Lemma ne_rev s : no_esc s -> no_esc (rev s).
+Proof. intros H. apply Forall_forall. intros c Hc. apply in_rev in Hc. unfold no_esc in H. rewrite Forall_forall in H. auto. Qed.
+Lemma ne_slice s a b : no_esc s -> no_esc (slice s a b).
+Proof. intros H. unfold slice. apply Forall_firstn, Forall_skipn, H. Qed.
+Lemma ne_lstrip s : no_esc s -> no_esc (lstrip s).
+Proof. induction 1 as [|c r Hc Hr IH]; cbn [lstrip]; [constructor|]. destruct (is_space c); [exact IH|constructor; assumption]. Qed.
+Lemma ne_rstrip_ws s : no_esc s -> no_esc (rstrip_ws s).
+Proof. intros H. unfold rstrip_ws. apply ne_rev, ne_lstrip, ne_rev, H. Qed.
+Lemma ne_strip s : no_esc s -> no_esc (strip s).
+Proof. intros H. unfold strip. apply ne_rev, ne_lstrip, ne_rev, ne_lstrip, H. Qed.
+Lemma ne_rstrip_nl s : no_esc s -> no_esc (rstrip_nl s).
+Proof.
+  intros H. unfold rstrip_nl. apply ne_rev. apply ne_rev in H. induction H as [|c r Hc Hr IH]; cbn [rstrip_nl_rev]; [constructor|].
+  destruct (N.eqb c NL); [exact IH|constructor; assumption].
+Qed.
+Lemma ne_cut_lt tag s : no_esc tag -> no_esc s -> no_esc (cut_lt tag s).
+Proof.
+  intros Ht Hs. unfold cut_lt. apply Forall_flat_map. eapply Forall_impl; [|exact Hs]. intros c Hc. cbn beta.
+  destruct (N.eqb c LT); [|constructor; [exact Hc|constructor]].
+  constructor; [discriminate|]. apply ne_app; [ne_compute|]. constructor; [discriminate|]. apply ne_app; [exact Ht|ne_compute].
+Qed.
+Lemma ne_literal s tag : no_esc tag -> no_esc s -> no_esc (literal s tag).
+Proof.
+  intros Ht Hs. unfold literal. assert (no_esc (cut_lt tag (double_bsl s))) as H by (apply ne_cut_lt; [exact Ht|apply double_bsl_P, Hs]).
+  destruct (ends_with_bsl s); [apply ne_app; [exact H|ne_compute]|exact H].
+Qed.
+Lemma ne_tagged style text : no_esc style -> no_esc text -> no_esc (tagged style text).
+Proof. intros H1 H2. unfold tagged. constructor; [discriminate|]. apply ne_app; [exact H1|]. constructor; [discriminate|]. apply ne_app; [exact H2|ne_compute]. Qed.
+Lemma ne_replace_fuel pat rep : no_esc rep -> forall fuel s, no_esc s -> no_esc (replace_fuel fuel pat rep s).
+Proof.
+  intros Hr. induction fuel as [|fuel IH]; intros s Hs; cbn [replace_fuel]; [exact Hs|]. destruct s as [|c r]; [constructor|].
+  destruct (starts_with pat (c :: r)).
+  - apply ne_app; [exact Hr|]. apply IH, Forall_skipn, Hs.
+  - inversion Hs; subst. constructor; [assumption|]. apply IH. assumption.
+Qed.
+Lemma ne_replace pat rep s : no_esc rep -> no_esc s -> no_esc (replace pat rep s).
+Proof. intros Hr Hs. unfold replace. destruct pat; [exact Hs|]. apply ne_replace_fuel; assumption. Qed.
+Lemma ne_split_on sep : forall s, no_esc s -> Forall no_esc (split_on sep s).
+Proof.
+  induction 1 as [|c r Hc Hr IH]; cbn [split_on]; [repeat constructor|]. destruct (N.eqb c sep); [constructor; [constructor|exact IH]|].
+  destruct (split_on sep r) as [|l ls]; [repeat constructor; exact Hc|]. inversion IH; subst. constructor; [constructor; assumption|assumption].
+Qed.
+Lemma ne_last (l : list str) : Forall no_esc l -> no_esc (last l []).
+Proof. induction 1 as [|x r Hx Hr IH]; [constructor|]. cbn [last]. destruct r; [exact Hx|exact IH]. Qed.
+Lemma ne_theme h : no_esc (theme h). Proof. destruct h; ne_compute. Qed.
+Lemma ne_styled h t : no_esc t -> no_esc (styled h t).
+Proof. intros H. unfold styled. apply ne_tagged; [apply ne_theme|apply ne_literal; [apply ne_theme|exact H]]. Qed.
+
+(* the highlighter only moves characters of the tokens and of their lines around *)
+Definition chunk_ne (c : chunk) : Prop := no_esc (snd c).
+Definition tok_ne (t : token) : Prop := no_esc (tk_str t) /\ no_esc (tk_line t).
+Definition hst_ne (st : hst) : Prop :=
+  Forall (Forall chunk_ne) (h_lines st) /\ Forall chunk_ne (h_line st) /\ no_esc (h_buf st) /\
+  match h_last st with Some ln => no_esc ln | None => True end.
+Lemma flush_ne ty buf : no_esc buf -> Forall chunk_ne (flush_chunk ty buf).
+Proof. intros H. destruct ty; cbn [flush_chunk]; [constructor; [exact H|constructor]|constructor]. Qed.
+Lemma line_rest_ne st : hst_ne st -> no_esc (line_rest st).
+Proof. intros (_ & _ & _ & H). unfold line_rest. destruct (h_last st); [apply ne_rstrip_ws, Forall_skipn, H|constructor]. Qed.
+Lemma hl_newline_ne st t : hst_ne st -> hst_ne (hl_newline st t).
+Proof.
+  intros H. pose proof (line_rest_ne st H) as HR. destruct H as (H1 & H2 & H3 & H4). unfold hl_newline.
+  destruct (h_curline st <? tk_srow t)%Z; [|repeat split; assumption]. unfold hst_ne. cbn [h_lines h_line h_buf h_last].
+  split; [|split; [constructor|split; [constructor|exact I]]].
+  apply Forall_app. split; [exact H1|]. apply Forall_app. split.
+  - constructor; [|constructor]. apply Forall_app. split; [exact H2|]. apply flush_ne, ne_app; [apply ne_rstrip_nl, H3|exact HR].
+  - apply Forall_forall. intros l Hl. apply repeat_spec in Hl. subst. constructor.
+Qed.
+Lemma hl_token_ne st t : hst_ne st -> tok_ne t -> hst_ne (hl_token st t).
+Proof.
+  intros H (Ts & Tl). apply (hl_newline_ne st t) in H. unfold hl_token. destruct (new_type t) as [nt|]; [|exact H].
+  destruct H as (H1 & H2 & H3 & H4). set (st' := hl_newline st t) in *.
+  set (cur := match h_type st' with Some c => c | None => nt end).
+  set (buf := if (h_curcol st' <? tk_scol t)%Z then h_buf st' ++ slice (tk_line t) (h_curcol st') (tk_scol t) else h_buf st').
+  assert (no_esc buf) as Hbuf by (unfold buf; destruct (h_curcol st' <? tk_scol t)%Z; [apply ne_app; [exact H3|apply ne_slice, Tl]|exact H3]).
+  set (change := negb (hl_eqb cur nt) && negb (ends_with_bsl buf)).
+  assert (Forall chunk_ne (if change then h_line st' ++ [(cur, buf)] else h_line st')) as Hline.
+  { destruct change; [|exact H2]. apply Forall_app. split; [exact H2|]. constructor; [exact Hbuf|constructor]. }
+  assert (no_esc (if change then [] else buf)) as Hbuf' by (destruct change; [constructor|exact Hbuf]).
+  destruct (tk_srow t <? tk_erow t)%Z; unfold hst_ne; cbn [h_lines h_line h_buf h_last].
+  - pose proof (ne_split_on NL (tk_str t) Ts) as Hsp. split; [|split; [constructor|split; [|exact I]]].
+    + apply Forall_app. split; [exact H1|]. apply Forall_app. split; [constructor; [exact Hline|constructor]|].
+      apply Forall_map. apply removelast_P. destruct (split_on NL (tk_str t)) as [|a tls]; cbn [tl]; [constructor|].
+      inversion Hsp; subst. eapply Forall_impl; [|eassumption]. intros l Hl. constructor; [exact Hl|constructor].
+    + apply ne_slice, ne_last, Hsp.
+  - split; [exact H1|]. split; [exact Hline|]. split; [apply ne_app; [exact Hbuf'|exact Ts]|exact Tl].
+Qed.
+Lemma hl_loop_ne : forall toks st, Forall tok_ne toks -> hst_ne st -> Forall (Forall chunk_ne) (hl_loop toks st).
+Proof.
+  induction toks as [|t r IH]; intros st HT H; cbn [hl_loop]; [apply H|]. inversion HT as [|? ? Ht Hr]; subst.
+  destruct (tk_srow t =? 0)%Z; [apply IH; assumption|].
+  assert (Forall (Forall chunk_ne) (h_lines st ++ [h_line st ++ flush_chunk (h_type st) (h_buf st)])) as Hend.
+  { destruct H as (H1 & H2 & H3 & _). apply Forall_app. split; [exact H1|]. constructor; [|constructor].
+    apply Forall_app. split; [exact H2|apply flush_ne, H3]. }
+  destruct (tk_kind t); try (apply IH; [exact Hr|apply hl_token_ne; assumption]). exact Hend.
+Qed.
+Lemma render_chunks_ne cs : Forall chunk_ne cs -> no_esc (render_chunks cs).
+Proof. intros H. unfold render_chunks. apply Forall_flat_map. eapply Forall_impl; [|exact H]. intros c Hc. apply ne_styled, Hc. Qed.
+Lemma split_to_lines_ne toks : Forall tok_ne toks -> Forall no_esc (split_to_lines toks).
+Proof.
+  intros H. unfold split_to_lines, split_chunks. apply Forall_map.
+  eapply Forall_impl; [|apply (hl_loop_ne toks hst_init H)]; [intros cs Hcs; apply render_chunks_ne, Hcs|].
+  repeat split; constructor.
+Qed.
+Lemma ui_ne utf8 : no_esc (u_arrow (ui_of utf8)) /\ no_esc (u_delim (ui_of utf8)).
+Proof. destruct utf8; split; ne_compute. Qed.
+Lemma number_from_ne utf8 w mark : forall lines i, Forall no_esc lines -> Forall no_esc (number_from (ui_of utf8) w mark i lines).
+Proof.
+  destruct (ui_ne utf8) as [Ha Hd]. induction lines as [|l r IH]; intros i H; cbn [number_from]; [constructor|].
+  inversion H as [|? ? Hl Hr]; subst. constructor; [|apply IH, Hr].
+  apply ne_app; [destruct (mark =? i)%Z; [apply ne_app; [apply ne_tagged; [ne_compute|exact Ha]|ne_compute]|ne_compute]|].
+  apply ne_app; [destruct (mark =? i)%Z; (apply ne_tagged; [ne_compute|apply ne_rjust, ne_dec_text])|].
+  apply ne_app; [apply ne_tagged; [ne_compute|exact Hd]|]. apply ne_app; [ne_compute|exact Hl].
+Qed.
+
+(* the inputs *)
+Definition tokres_ne (t : tokres) : Prop := match t with TokOk toks => Forall tok_ne toks | _ => True end.
+Definition frame_ne (f : frame) : Prop :=
+  no_esc (f_file f) /\ no_esc (f_func f) /\ no_esc (f_line f) /\ tokres_ne (f_content f) /\ tokres_ne (f_linetoks f).
+(* no ESC in the class name, the message, the file and function names, the source; the path separator is not ESC *)
+Definition inputs_ne (c : tcfg) (x : exn_case) : Prop :=
+  t_sep c <> ESC /\ no_esc (x_name x) /\ no_esc (x_msg x) /\ Forall frame_ne (x_frames x).
+
+Section LinesNoEsc.
+Variable c : tcfg.
+Hypothesis Hsep : t_sep c <> ESC.
+Notation new := (fun wl : wline => no_esc (snd wl)).
+
+Lemma snippet_of_ne content line before after ls :
+  tokres_ne content -> snippet_of c content line before after = Ok ls -> Forall no_esc ls.
+Proof.
+  unfold snippet_of. destruct content as [toks| |]; intros HT H; try discriminate. injection H as <-.
+  unfold code_snippet, line_numbers. apply Forall_firstn, Forall_skipn, number_from_ne, split_to_lines_ne, HT.
+Qed.
+Lemma rel_path_ne p : no_esc p -> no_esc (rel_path c p).
+Proof.
+  intros Hp. unfold rel_path.
+  match goal with |- no_esc (match t_home c with [] => ?q | _ => _ end) => set (p1 := q) end.
+  assert (no_esc p1) as H1 by (subst p1; destruct (t_cwd c); [exact Hp|apply ne_replace; [constructor|exact Hp]]).
+  destruct (t_home c); [exact H1|]. apply ne_replace; [|exact H1]. constructor; [discriminate|]. constructor; [exact Hsep|constructor].
+Qed.
+Lemma location_ne fs f : no_esc fs -> frame_ne f -> no_esc (location c fs f).
+Proof.
+  intros Hfs (H1 & H2 & _). unfold location.
+  apply ne_app; [apply ne_literal; [exact Hfs|apply rel_path_ne, H1]|]. apply ne_app; [ne_compute|]. apply ne_app; [apply ne_dec_text|].
+  apply ne_app; [ne_compute|]. apply ne_app; [apply ne_literal; [ne_compute|exact H2]|ne_compute].
+Qed.
+Lemma render_line_ne ind l nl extra : no_esc l -> Forall new (render_line ind l nl extra).
+Proof.
+  intros Hl. unfold render_line. apply Forall_app. split; [destruct nl; constructor; [constructor|constructor]|].
+  constructor; [|constructor]. cbn [snd]. apply ne_app; [apply ne_repeat32|exact Hl].
+Qed.
+Lemma frame_code_ne ind w f ls : frame_ne f -> frame_code c ind w f = Ok ls -> Forall new ls.
+Proof.
+  intros (_ & _ & HL & HC & HT). unfold frame_code. destruct (t_debug c).
+  - destruct (snippet_of c (f_content f) (f_lineno f) 2 2) as [sn|e] eqn:E; cbn [bind]; [|discriminate]. intros H. injection H as <-.
+    apply Forall_flat_map. eapply Forall_impl; [|apply (snippet_of_ne _ _ _ _ _ HC E)].
+    intros l Hl. apply render_line_ne. apply ne_app; [apply ne_rjust; ne_compute|exact Hl].
+  - intros H.
+    assert (exists code, no_esc code /\ ls = render_line ind (rjust [32%N] w ++ [32; 32]%N ++ code) false 0) as (code & Hc & ->).
+    { destruct (f_linetoks f) as [toks| |]; cbn [bind] in H; try discriminate.
+      - pose proof (split_to_lines_ne toks HT) as HG. destruct (split_to_lines toks) as [|l r]; cbn [bind] in H; [discriminate|].
+        injection H as <-. inversion HG; subst. eexists. split; [eassumption|reflexivity].
+      - injection H as <-. eexists. split; [apply ne_styled, ne_strip, HL|reflexivity]. }
+    apply render_line_ne. apply ne_app; [apply ne_rjust; ne_compute|]. apply ne_app; [ne_compute|exact Hc].
+Qed.
+Lemma frame_line_ne w f i : frame_ne f -> no_esc (frame_line c w f i).
+Proof.
+  intros Hf. unfold frame_line. apply ne_app; [ne_compute|]. apply ne_app; [apply ne_rjust, ne_dec_text|].
+  apply ne_app; [ne_compute|]. apply location_ne; [ne_compute|exact Hf].
+Qed.
+Lemma frames_lines_ne ind w : forall fs i ls i', Forall frame_ne fs -> frames_lines c ind w fs i = Ok (ls, i') -> Forall new ls.
+Proof.
+  induction fs as [|f fs IH]; intros i ls i' HF H; cbn [frames_lines] in H; [injection H as <- <-; constructor|].
+  inversion HF as [|? ? Hf Hfs]; subst.
+  destruct (frame_code c ind w f) as [code|e] eqn:EC; cbn [bind] in H; [|discriminate].
+  destruct (frames_lines c ind w fs (i - 1)) as [[rest j]|e] eqn:E; cbn [bind fst snd] in H; [|discriminate].
+  assert (ls = render_line ind (frame_line c w f i) true 0 ++ code ++ rest) as -> by (injection H; intros; symmetry; assumption).
+  apply Forall_app. split; [apply render_line_ne, frame_line_ne, Hf|].
+  apply Forall_app. split; [apply (frame_code_ne _ _ _ _ Hf EC)|apply (IH _ _ _ Hfs E)].
+Qed.
+Lemma fold_line_ne w n reps : no_esc (fold_line w n reps).
+Proof.
+  unfold fold_line. apply ne_app; [ne_compute|]. apply ne_app; [apply ne_rjust; ne_compute|]. apply ne_app; [ne_compute|].
+  apply ne_app; [destruct (1 <? n)%Z; [|ne_compute]; apply ne_app; [ne_compute|]; apply ne_app; [apply ne_dec_text|ne_compute]|].
+  apply ne_app; [ne_compute|]. apply ne_app; [apply ne_dec_text|ne_compute].
+Qed.
+Lemma colls_lines_ne ind w : forall cs i ls, Forall frame_ne (flat_map c_frames cs) -> colls_lines c ind w cs i = Ok ls -> Forall new ls.
+Proof.
+  induction cs as [|cl cs IH]; intros i ls HF H; cbn [colls_lines] in H; [injection H as <-; constructor|].
+  cbn [flat_map] in HF. apply Forall_app in HF. destruct HF as [HF1 HF2].
+  destruct (frames_lines c ind w (c_frames cl) _) as [[fl j]|e] eqn:E; cbn [bind fst snd] in H; [|discriminate].
+  destruct (colls_lines c ind w cs j) as [rest|e] eqn:E2; cbn [bind] in H; [|discriminate].
+  assert (ls = (if coll_repeated cl then render_line ind (fold_line w (zlen (c_frames cl)) (c_count cl - 1)) true 0 else []) ++ fl ++ rest) as ->
+    by (injection H; intros; symmetry; assumption).
+  apply Forall_app. split.
+  - destruct (coll_repeated cl); [|constructor]. apply render_line_ne, fold_line_ne.
+  - apply Forall_app. split; [apply (frames_lines_ne _ _ _ _ _ _ HF1 E)|apply (IH _ _ HF2 E2)].
+Qed.
+Lemma render_trace_ne ind fs ls : Forall frame_ne fs -> render_trace c ind fs = Ok ls -> Forall new ls.
+Proof.
+  intros HF. unfold render_trace. destruct (t_verbose c && negb (zlen (kept_frames c fs) - 1 =? 0)%Z); [|intros H; injection H as <-; constructor].
+  destruct (colls_lines c ind _ _ _) as [l|e] eqn:E; cbn [bind]; [|discriminate]. intros H.
+  assert (ls = render_line ind s_stack true 0 ++ l) as -> by (injection H; intros; symmetry; assumption).
+  apply Forall_app. split; [apply render_line_ne; ne_compute|]. refine (colls_lines_ne _ _ _ _ _ _ E).
+  apply Forall_forall. intros f Hf. apply compact_sub_l, kept_frames_spec in Hf. destruct Hf as [Hf _].
+  rewrite Forall_forall in HF. apply HF, Hf.
+Qed.
+Lemma render_snippet_ne ind f ls : frame_ne f -> render_snippet c ind f = Ok ls -> Forall new ls.
+Proof.
+  intros Hf. pose proof Hf as (_ & _ & _ & HC & _). unfold render_snippet.
+  destruct (snippet_of c (f_content f) (f_lineno f) 4 4) as [sn|e] eqn:E; cbn [bind]; [|discriminate].
+  intros H. assert (ls = render_line ind (s_at ++ location c st_green f) true 0 ++ flat_map (fun l => render_line (ind + 2) l false 0) sn) as ->
+    by (injection H; intros; symmetry; assumption).
+  apply Forall_app. split; [apply render_line_ne, ne_app; [ne_compute|apply location_ne; [ne_compute|exact Hf]]|].
+  apply Forall_flat_map. eapply Forall_impl; [|apply (snippet_of_ne _ _ _ _ _ HC E)]. intros l Hl. apply render_line_ne, Hl.
+Qed.
+Lemma dflt_frame_ne : frame_ne dflt_frame. Proof. repeat split; constructor. Qed.
+Lemma last_frame_ne fs : Forall frame_ne fs -> frame_ne (last fs dflt_frame).
+Proof. induction 1 as [|f r Hf Hr IH]; [apply dflt_frame_ne|]. cbn [last]. destruct r; [exact Hf|exact IH]. Qed.
+Lemma lines_noesc_c simple ind x ls :
+  no_esc (x_name x) -> no_esc (x_msg x) -> Forall frame_ne (x_frames x) ->
+  render_lines c simple ind x = Ok ls -> Forall new ls.
+Proof.
+  intros Hn Hm HF. unfold render_lines. destruct simple.
+  - intros H. assert (ls = [(ind, s_error_open ++ literal (x_msg x) st_error ++ s_error_close)]) as ->
+      by (injection H; intros; symmetry; assumption).
+    constructor; [|constructor]. cbn [snd]. apply ne_app; [ne_compute|]. apply ne_app; [apply ne_literal; [ne_compute|exact Hm]|ne_compute].
+  - unfold render_exception. fold dflt_frame. destruct (x_frames x) as [|f0 fs] eqn:EF; [intros H; injection H as <-; constructor|].
+    rewrite <- EF in *.
+    destruct (render_trace c (ind + 2) (x_frames x)) as [tr|e] eqn:ET; cbn [bind]; [|discriminate].
+    destruct (render_snippet c (ind + 2) (last (x_frames x) dflt_frame)) as [sn|e] eqn:ES; cbn [bind]; [|discriminate]. intros H.
+    assert (ls = tr ++ render_line (ind + 2) (name_line x) true 0 ++ [((ind + 2)%Z, [])] ++ render_line (ind + 2) (msg_line x) false 0 ++ sn) as ->
+      by (injection H; intros; symmetry; assumption).
+    apply Forall_app. split; [apply (render_trace_ne _ _ _ HF ET)|].
+    apply Forall_app. split.
+    { apply render_line_ne. unfold name_line. apply ne_app; [ne_compute|]. apply ne_app; [apply ne_literal; [ne_compute|exact Hn]|ne_compute]. }
+    apply Forall_app. split; [constructor; [constructor|constructor]|].
+    apply Forall_app. split; [|apply (render_snippet_ne _ _ _ (last_frame_ne _ HF) ES)].
+    apply render_line_ne. unfold msg_line. apply ne_app; [ne_compute|]. apply ne_app; [|ne_compute].
+    apply ne_replace; [ne_compute|apply ne_literal; [ne_compute|exact Hm]].
+Qed.
+End LinesNoEsc.
+Theorem lines_noesc c simple ind x ls : inputs_ne c x -> render_lines c simple ind x = Ok ls -> Forall (fun wl => no_esc (snd wl)) ls.
+Proof. intros (H1 & H2 & H3 & H4). apply (lines_noesc_c c H1 simple ind x ls H2 H3 H4). Qed.
+
+(* 4e. render fails only if tokenize does - decorated or not, stated on the inputs *)
+Theorem render_never_fails_inputs sty c simple o x :
+  out_ok sty o -> resolvable sty st_error -> resolvable sty st_b ->
+  (simple = false -> render_cond c x) -> (decorated o = true -> inputs_ne c x) ->
+  exists bytes, render c simple o x = Ok bytes.
+Proof.
+  intros Ho Herr Hb Hc Hne. apply (render_never_fails sty c simple o x Ho Herr Hb Hc).
+  intros Hd ls HL. apply (lines_noesc c simple _ x ls (Hne Hd) HL).
+Qed.
+
 (* ------------------------------------------------------------------ 6. the hypotheses are satisfiable *)
 Module RenderExamples.
 Import LiteralLemmas.Examples.
@@ -1111,6 +1383,18 @@ Proof.
   apply (render_never_fails demo_sty2); [apply demo_out_ok; discriminate|apply demo_error|apply demo_b|intros _; apply ex_cond|].
   intros _ ls H. vm_compute in H. injection H as <-. repeat constructor; discriminate.
 Qed.
+(* the same from the inputs: no ESC in the names, the message and the source *)
+Example ex_inputs_ne : inputs_ne (demo_cfg true) (demo_x [demo_frame; demo_frame]).
+Proof.
+  assert (frame_ne demo_frame) as Hf by (repeat split; repeat constructor; discriminate).
+  split; [discriminate|]. split; [repeat constructor; discriminate|]. split; [repeat constructor; discriminate|]. constructor; [exact Hf|]. constructor; [exact Hf|constructor].
+Qed.
+Example ex_never_fails_ansi_inputs simple :
+  exists bytes, render (demo_cfg true) simple (demo_out (FAnsi false) true 4) (demo_x [demo_frame; demo_frame]) = Ok bytes.
+Proof.
+  apply (render_never_fails_inputs demo_sty2); [apply demo_out_ok; discriminate|apply demo_error|apply demo_b|intros _; apply ex_cond|].
+  intros _. apply ex_inputs_ne.
+Qed.
 (* a file that tokenize rejects: the condition fails and so does render (tokenize's exception escapes) *)
 Definition bad_frame : frame :=
   {| f_file := [97;46;112;121]%N; f_ignored := false; f_lineno := 1; f_func := [102%N]; f_line := [120%N];
@@ -1158,6 +1442,8 @@ Print Assumptions write_pieces.
 Print Assumptions write_lines_good.
 Print Assumptions render_never_fails.
 Print Assumptions render_lines_ok.
+Print Assumptions lines_noesc.
+Print Assumptions render_never_fails_inputs.
 Print Assumptions render_plain_bytes_l.
 Print Assumptions simple_bytes.
 Print Assumptions full_bytes.
